@@ -29,7 +29,7 @@ type ProgOpts struct {
 	StuckXor bool // allow exclusive gateways with no default and possibly no true condition
 	ActivityDefault bool // allow default flows on activities
 	DataConds bool // conditions may read boolean results written by tasks that certainly ran before (also by other tokens: sub-process content, joined parallel branches)
-	SubInLoop bool // allow sub-processes inside loops (known-finding trigger)
+	SubInLoop bool // allow sub-processes inside loops (always on since the re-entry repair; the tag is kept as a reach probe)
 	ForkInOr bool // allow forking blocks inside inclusive branches (known-finding trigger)
 	OrInAnd bool // allow inclusive joins inside parallel branches (known-finding trigger)
 	Wrap    bool // C12: wrap blocks in 1..3 levels of embedded sub-process
@@ -438,6 +438,7 @@ type Program struct {
 
 // GenProgram draws a block-structured process.
 func GenProgram(d *Draw, opts ProgOpts) *Program {
+	opts.SubInLoop = true // (was a known-finding trigger until the sub-process re-entry repair)
 	defs := &Definitions{}
 	g := &Graph{ID: "P1", Executable: true}
 	defs.Procs = []*Graph{g}
